@@ -95,29 +95,29 @@ type ViolatingRun struct {
 
 // WorkerOut is what one batch worker reports.
 type WorkerOut struct {
-	Property     string           `json:"property"`
-	Seed         uint64           `json:"seed"`
-	From         int              `json:"from"`
-	To           int              `json:"to"`
-	Stride       int              `json:"stride"`
-	Evaluations  int              `json:"evaluations"`
-	Nontrivial   int              `json:"nontrivial"`
-	Violating    []ViolatingRun   `json:"violating"`
-	ViolCount    int              `json:"viol_count"`
-	ClassCounts  map[string]int   `json:"class_counts"`
-	Faults       map[string]int   `json:"faults"`
-	Probes       map[string]int   `json:"probes"`
-	Observations map[string]int   `json:"observations"`
-	Steps        int64            `json:"steps"`
-	Switches     int64            `json:"switches"`
-	SimTimeNs    float64          `json:"sim_time_ns"`
-	WallS        float64          `json:"wall_s"`
-	Samples      []*Plan          `json:"samples"`
-	SiteHits     []uint32         `json:"site_hits"`
+	Property     string            `json:"property"`
+	Seed         uint64            `json:"seed"`
+	From         int               `json:"from"`
+	To           int               `json:"to"`
+	Stride       int               `json:"stride"`
+	Evaluations  int               `json:"evaluations"`
+	Nontrivial   int               `json:"nontrivial"`
+	Violating    []ViolatingRun    `json:"violating"`
+	ViolCount    int               `json:"viol_count"`
+	ClassCounts  map[string]int    `json:"class_counts"`
+	Faults       map[string]int    `json:"faults"`
+	Probes       map[string]int    `json:"probes"`
+	Observations map[string]int    `json:"observations"`
+	Steps        int64             `json:"steps"`
+	Switches     int64             `json:"switches"`
+	SimTimeNs    float64           `json:"sim_time_ns"`
+	WallS        float64           `json:"wall_s"`
+	Samples      []*Plan           `json:"samples"`
+	SiteHits     []uint32          `json:"site_hits"`
 	Hashes       map[string]string `json:"hashes"` // run index -> event hash (sampled)
-	RaceBuild    bool             `json:"race_build"`
-	CutShort     bool             `json:"cut_short"`
-	LastIndex    int              `json:"last_index"`
+	RaceBuild    bool              `json:"race_build"`
+	CutShort     bool              `json:"cut_short"`
+	LastIndex    int               `json:"last_index"`
 }
 
 func TestSim(t *testing.T) {
@@ -235,7 +235,7 @@ func runBatch(t *testing.T) {
 	scheds := map[uint64]struct{}{}
 	pairs := map[uint64]struct{}{}
 	var longest, middle, first *Plan
-	mid := *fFrom + ((*fTo-*fFrom) / 2 / max(1, *fStride)) * max(1, *fStride)
+	mid := *fFrom + ((*fTo-*fFrom)/2/max(1, *fStride))*max(1, *fStride)
 	progress := *fOut + ".progress"
 	seenClass := map[string]int{}
 	stride := max(1, *fStride)
